@@ -167,11 +167,29 @@ def handle (op : String) (args : List String) : Option String :=
       | "o2", params, v =>
         -- post-processing interrupted before `_outs` was rewritten, then run again on the same record
         some (processStructOuts da ps params v outs (processStructOuts da ps params v outs fs).2)
+      | "oo", params, v =>
+        -- post-processing completed, then run again on the rewritten record
+        let r := processStructOuts da ps params v outs fs
+        some (processStructOuts da ps params r.1 outs r.2)
       | "a", params, .arr xs =>
         let r := postArray da ps params outs 0 xs fs
         some (J.arr r.1, r.2)
+      | "a2", params, .arr xs =>
+        let r := postArray da ps params outs 0 xs (postArray da ps params outs 0 xs fs).2
+        some (J.arr r.1, r.2)
+      | "aa", params, .arr xs =>
+        let r1 := postArray da ps params outs 0 xs fs
+        let r := postArray da ps params outs 0 r1.1 r1.2
+        some (J.arr r.1, r.2)
       | "m", params, .obj kvs =>
         let r := postMap da ps params outs kvs fs
+        some (J.obj r.1, r.2)
+      | "m2", params, .obj kvs =>
+        let r := postMap da ps params outs kvs (postMap da ps params outs kvs fs).2
+        some (J.obj r.1, r.2)
+      | "mm", params, .obj kvs =>
+        let r1 := postMap da ps params outs kvs fs
+        let r := postMap da ps params outs r1.1 r1.2
         some (J.obj r.1, r.2)
       | _, _, _ => none)
     pure (strHex (renderJ r.1) ++ "\t" ++ renderFS r.2)
